@@ -197,6 +197,8 @@ func (c *Ctx) trueImplications(fn *ssa.Function, v ssa.Value, r *ssa.Return, dep
 	return fields
 }
 
+var nilFlowInheriting = map[*ssa.Function]bool{}
+
 func (c *Ctx) NilFlow(fn *ssa.Function) *NilFlow {
 	nf := &NilFlow{c: c, fn: fn, entry: map[*ssa.BasicBlock]factSet{}, top: map[*ssa.BasicBlock]bool{}}
 	if len(fn.Blocks) == 0 {
@@ -207,6 +209,32 @@ func (c *Ctx) NilFlow(fn *ssa.Function) *NilFlow {
 	}
 	nf.entry[fn.Blocks[0]] = factSet{}
 	nf.top[fn.Blocks[0]] = false
+	// a private helper with one call site starts with what is known at that site, said of its parameters (inline.go)
+	if h := helperOf(fn); h != nil && len(h.sites) == 1 && fn.Parent() == nil && !nilFlowInheriting[fn] {
+		caller := h.site.Parent()
+		if cnf, cached := nilFlowCache[caller]; !cached || !cnf.busy {
+			nilFlowInheriting[fn] = true
+			cf := c.NilFlowCached(caller).FactsAt(h.site)
+			delete(nilFlowInheriting, fn)
+			args := h.site.Common().Args
+			for i, p := range fn.Params {
+				if i >= len(args) {
+					break
+				}
+				ap, pp := AccessPath(args[i]), AccessPath(p)
+				for k, v := range cf {
+					if !v {
+						continue
+					}
+					if k == ap {
+						nf.entry[fn.Blocks[0]][pp] = true
+					} else if strings.HasPrefix(k, ap+".") {
+						nf.entry[fn.Blocks[0]][pp+k[len(ap):]] = true
+					}
+				}
+			}
+		}
+	}
 	if fn.Recover != nil {
 		nf.entry[fn.Recover] = factSet{}
 		nf.top[fn.Recover] = false
